@@ -91,6 +91,29 @@ pub struct SymbolTable<'a, K: Key, V: 'a + Value> {
     stack: LinkedList<Scope<'a, K, V>>,
 }
 
+/// Verification hook, compiled only with `--cfg ironplc_verif`: every operation
+/// on a symbol table is recorded (operation, key, result) in the event list of
+/// `stages::verif_trace`, so that a conformance harness can validate the scoping
+/// discipline of the analysis against its specification.
+#[cfg(ironplc_verif)]
+fn verif_scope_event<K: Key>(op: &str, name: Option<&K>, result: Option<bool>) {
+    let key = match name {
+        Some(name) => format!(",\"k\":{:?}", format!("{:?}", name)),
+        None => String::new(),
+    };
+    let result = match result {
+        Some(result) => format!(",\"r\":{}", result),
+        None => String::new(),
+    };
+    crate::stages::verif_trace::emit(format!(
+        "{{\"ev\":\"scope\",\"table\":{:?},\"op\":\"{}\"{}{}}}",
+        std::any::type_name::<K>(),
+        op,
+        key,
+        result
+    ));
+}
+
 impl<'a, K: Key, V: 'a + Value> SymbolTable<'a, K, V> {
     /// Creates an empty `SymbolTable`.
     pub fn new() -> Self {
@@ -104,6 +127,8 @@ impl<'a, K: Key, V: 'a + Value> SymbolTable<'a, K, V> {
     /// This creates a new context that can hide declarations
     /// from outer scopes.
     pub fn enter(&mut self) {
+        #[cfg(ironplc_verif)]
+        verif_scope_event::<K>("enter", None, None);
         self.stack.push_front(Scope::new())
     }
 
@@ -111,6 +136,8 @@ impl<'a, K: Key, V: 'a + Value> SymbolTable<'a, K, V> {
     ///
     /// This removes the current scope.
     pub fn exit(&mut self) {
+        #[cfg(ironplc_verif)]
+        verif_scope_event::<K>("exit", None, None);
         self.stack.pop_front();
     }
 
@@ -122,6 +149,8 @@ impl<'a, K: Key, V: 'a + Value> SymbolTable<'a, K, V> {
     /// and the old value is returned. The key is not updated. This matters
     /// particularly for Id's which can be equal even if not identical.
     pub fn add(&mut self, name: &K, value: V) -> Option<V> {
+        #[cfg(ironplc_verif)]
+        verif_scope_event("add", Some(name), None);
         match self.stack.front_mut() {
             None => None,
             Some(scope) => scope.add(name, value),
@@ -142,6 +171,14 @@ impl<'a, K: Key, V: 'a + Value> SymbolTable<'a, K, V> {
     /// If the table does have this key present in scope, the value is not
     /// updated. The existing key and value are returned.
     pub fn try_add(&mut self, name: &K, value: V) -> Option<(&K, &V)> {
+        #[cfg(ironplc_verif)]
+        {
+            let existed = self
+                .stack
+                .front()
+                .map(|scope| scope.table.contains_key(name));
+            verif_scope_event("try_add", Some(name), existed);
+        }
         match self.stack.front_mut() {
             None => None,
             Some(scope) => scope.try_add(name, value),
@@ -150,6 +187,14 @@ impl<'a, K: Key, V: 'a + Value> SymbolTable<'a, K, V> {
 
     /// Returns the value for the given name.
     pub fn find(&mut self, name: &K) -> Option<&V> {
+        #[cfg(ironplc_verif)]
+        {
+            let found = self
+                .stack
+                .iter()
+                .any(|scope| scope.table.contains_key(name));
+            verif_scope_event("find", Some(name), Some(found));
+        }
         self.stack.iter_mut().find_map(|scope| scope.find(name))
     }
 
